@@ -388,6 +388,12 @@ class Translator:
             nt = self.tparse(full)
             t.name = nt.name; t.args = nt.args
             return self.category(t)
+        m = re.match(r"^std::(?:__shared_ptr_access|__shared_ptr|shared_ptr)<(.+?)(?:, __gnu_cxx::[A-Za-z_]+(?:, (?:true|false))*)?>::element_type$", n)
+        if m and not t.args:
+            # the pointee type of a shared_ptr, as clang prints the return type of operator-> / operator*
+            nt = self.tparse(m.group(1))
+            t.kind = nt.kind; t.name = nt.name; t.args = nt.args; t.to = nt.to
+            return self.category(t)
         if n in BUILTIN_C: return 'scalar'
         if n in STRING_NAMES: return 'str'
         if n in SV_NAMES: return 'sv'
@@ -649,6 +655,7 @@ class Translator:
         return node['kind'] in ('CXXMethodDecl', 'CXXConstructorDecl', 'CXXDestructorDecl', 'CXXConversionDecl') and node.get('storageClass') != 'static'
 
     def fn_class_qname(self, node):
+        if node.get('_class_q'): return node['_class_q']
         q = self.fn_qname(node)
         # strip template args on the last component then the last component
         depth = 0; i = len(q) - 1
